@@ -174,6 +174,132 @@ theorem equal_of_no_difference (cs : List Col) (hcert : dominates cs = true)
   obtain ⟨L, hL⟩ := hbound
   rw [tot_filter_all L cs hL, hbelow L]
 
+/-! ### the ranking in terms of level sums only, and what an optimal configuration therefore looks like -/
+
+/-- as `equal_of_no_difference`, from what it really needs: equal weights inside a level -/
+theorem tot_zero_of_levels (cs : List Col) (hs : ∀ c ∈ cs, ∀ c' ∈ cs, c'.lev = c.lev → c'.w = c.w)
+    (hall : ∀ l, dAt l cs = 0) : tot cs = 0 := by
+  have hzero : ∀ l, totAt l cs = 0 := by
+    intro l
+    by_cases hex : ∃ c ∈ cs, c.lev = l
+    · obtain ⟨c0, hc0, hlev⟩ := hex
+      rw [at_level l c0.w cs (fun c hc hcl => hs c0 hc0 c hc (by rw [hcl, hlev])), hall l]; simp
+    · have : cs.filter (fun c => c.lev = l) = [] := by
+        apply List.filter_eq_nil_iff.2
+        intro c hc; simp; intro hcl; exact hex ⟨c, hc, hcl⟩
+      simp [totAt, this]
+  have hbelow : ∀ L, totBelow L cs = 0 := by
+    intro L
+    induction L with
+    | zero =>
+        have : cs.filter (fun c => decide (c.lev < 0)) = [] := by
+          apply List.filter_eq_nil_iff.2; intro c _; simp
+        simp only [totBelow, this, tot_nil]
+    | succ n ih => rw [totBelow_succ, ih, hzero n]; rfl
+  have hbound : ∃ L, ∀ c ∈ cs, c.lev < L := by
+    clear hs hall hzero hbelow
+    induction cs with
+    | nil => exact ⟨0, by simp⟩
+    | cons c cs ih =>
+        obtain ⟨L, hL⟩ := ih
+        refine ⟨max L (c.lev + 1), ?_⟩
+        intro c' hc'
+        rcases List.mem_cons.1 hc' with rfl | h
+        · omega
+        · have := hL c' h; omega
+  obtain ⟨L, hL⟩ := hbound
+  rw [tot_filter_all L cs hL, hbelow L]
+
+theorem dAt_filter_above (l l' : Nat) (cs : List Col) :
+    dAt l' (cs.filter fun c => l < c.lev) = if l < l' then dAt l' cs else 0 := by
+  simp only [dAt, List.filter_filter]
+  split
+  · rename_i h
+    have : cs.filter (fun c => decide (c.lev = l') && decide (l < c.lev)) = cs.filter (fun c => decide (c.lev = l')) := by
+      apply List.filter_congr
+      intro c _
+      by_cases hc : c.lev = l'
+      · simp [hc, h]
+      · simp [hc]
+    rw [this]
+  · rename_i h
+    have : cs.filter (fun c => decide (c.lev = l') && decide (l < c.lev)) = [] := by
+      apply List.filter_eq_nil_iff.2
+      intro c _
+      simp only [Bool.and_eq_true, decide_eq_true_eq, not_and]
+      intro hc; omega
+    rw [this]; rfl
+
+/-- if the level sums agree at every level above `l`, the columns above `l` contribute nothing -/
+theorem totAbove_zero_of_levels (cs : List Col) (hcert : dominates cs = true) (l : Nat)
+    (hhigher : ∀ l', l < l' → dAt l' cs = 0) : totAbove l cs = 0 := by
+  have hs := dominates_spec cs hcert
+  apply tot_zero_of_levels
+  · intro c hc c' hc' hl
+    exact (hs c (List.mem_filter.1 hc).1).2.2 c' (List.mem_filter.1 hc').1 hl
+  · intro l'
+    rw [dAt_filter_above]
+    split
+    · exact hhigher l' ‹_›
+    · rfl
+
+/-- **the lexicographic ranking, in level sums only**: two 0/1 configurations whose level sums agree at every level above `l`
+    are ranked by their level sums at `l` -/
+theorem lex_by_level_sums (cs : List Col) (hcert : dominates cs = true) (hd : ∀ c ∈ cs, -1 ≤ c.d ∧ c.d ≤ 1)
+    (l : Nat) (hl : ∃ c ∈ cs, c.lev = l) (hhigher : ∀ l', l < l' → dAt l' cs = 0) :
+    (0 < dAt l cs → 0 < tot cs) ∧ (dAt l cs < 0 → tot cs < 0) :=
+  lex_of_cert cs hcert hd l hl (totAbove_zero_of_levels cs hcert l hhigher)
+
+/-- **"hence"**: a configuration `x` that is optimal against `y` (objective(x) − objective(y) = `tot cs` ≥ 0) is at least as
+    good as `y` at the highest level where they differ.  With the levels of `level_order` this is the statement's conclusion:
+    at a user-priority level the prioritised item is taken when `y` shows it can be (positive priority) or avoided (negative);
+    with the user levels tied, no more non-default helpers are on than in `y`; with those tied too, no more columns are
+    selected than in `y`. -/
+theorem optimal_lex_maximal (cs : List Col) (hcert : dominates cs = true) (hd : ∀ c ∈ cs, -1 ≤ c.d ∧ c.d ≤ 1)
+    (hopt : 0 ≤ tot cs) (l : Nat) (hl : ∃ c ∈ cs, c.lev = l) (hhigher : ∀ l', l < l' → dAt l' cs = 0) :
+    0 ≤ dAt l cs := by
+  have := (lex_by_level_sums cs hcert hd l hl hhigher).2
+  omega
+
+theorem sum_const_sign (d : Int) : ∀ l : List Col, l ≠ [] → (∀ c ∈ l, c.d = d) →
+    (0 ≤ (l.map (·.d)).foldr (· + ·) 0 → 0 ≤ d)
+  | [], h, _ => absurd rfl h
+  | [c], _, h => by have := h c (by simp); simp; omega
+  | c :: c' :: r, _, h => by
+      have ih := sum_const_sign d (c' :: r) (by simp) (fun x hx => h x (by simp [hx]))
+      have hc := h c (by simp)
+      simp only [List.map_cons, List.foldr_cons] at ih ⊢
+      intro hsum
+      by_cases hd0 : 0 ≤ d
+      · exact hd0
+      · have hneg : (c'.d + (r.map (·.d)).foldr (· + ·) 0) < 0 := by
+          by_cases h' : 0 ≤ c'.d + (r.map (·.d)).foldr (· + ·) 0
+          · exact absurd (ih h') hd0
+          · omega
+        omega
+
+/-- **a feasible prioritised item is selected**: if one column `c0` alone carries the highest level (the item with the
+    user's top priority), a configuration that is optimal against `y` does at `c0` at least as well as `y` —
+    `c0.d = sgn·(x − y) ≥ 0`: selected if `y` selects it (positive priority), not selected if `y` avoids it (negative) -/
+theorem top_priority_followed (cs : List Col) (hcert : dominates cs = true) (hd : ∀ c ∈ cs, -1 ≤ c.d ∧ c.d ≤ 1)
+    (hopt : 0 ≤ tot cs) (c0 : Col) (hc0 : c0 ∈ cs) (hmax : ∀ c ∈ cs, c.lev ≤ c0.lev)
+    (huniq : ∀ c ∈ cs, c.lev = c0.lev → c.d = c0.d) : 0 ≤ c0.d := by
+  have hhigher : ∀ l', c0.lev < l' → dAt l' cs = 0 := by
+    intro l' hl'
+    have : cs.filter (fun c => c.lev = l') = [] := by
+      apply List.filter_eq_nil_iff.2
+      intro c hc; have := hmax c hc; simp; omega
+    simp [dAt, this]
+  have h := optimal_lex_maximal cs hcert hd hopt c0.lev ⟨c0, hc0, rfl⟩ hhigher
+  apply sum_const_sign c0.d (cs.filter fun c => c.lev = c0.lev)
+  · intro he
+    have : c0 ∈ cs.filter (fun c => c.lev = c0.lev) := List.mem_filter.2 ⟨hc0, by simp⟩
+    rw [he] at this; cases this
+  · intro c hc
+    have := List.mem_filter.1 hc
+    exact huniq c this.1 (by simpa using this.2)
+  · exact h
+
 /-! ### the objective the configurator hands to the solver passes the certificate — for every input
 
   `_vectors_from_prios` shadow-compresses the rows [default priorities, user priorities]; in key form
@@ -255,6 +381,19 @@ theorem level_order (ks : List Key) (k' k : Key) (hk' : k' ∈ ks) (hk : k ∈ k
   · intro h; exact levOf_lt ks k' k hk' (Or.inl h)
   · intro h1 h2; exact levOf_lt ks k' k hk' (Or.inr ⟨h1, h2⟩)
 
+/-- **the statement's "hence", for the configurator's own objective**: a configuration that the exact solver returns
+    (optimal against the feasible `y`: `tot ≥ 0`) is at least as good as `y` at the highest level at which their level sums
+    differ — levels as in `level_order` -/
+theorem configurator_optimal_lex (ks : List Key) (ds : List Int) (hlen : ks.length ≤ ds.length)
+    (hd : ∀ d ∈ ds, -1 ≤ d ∧ d ≤ 1) (hopt : 0 ≤ tot ((List.zip ks ds).map (colOf ks))) (l : Nat)
+    (hl : ∃ c ∈ (List.zip ks ds).map (colOf ks), c.lev = l)
+    (hhigher : ∀ l', l < l' → dAt l' ((List.zip ks ds).map (colOf ks)) = 0) :
+    0 ≤ dAt l ((List.zip ks ds).map (colOf ks)) := by
+  apply optimal_lex_maximal _ (shadow_objective_dominates ks ds hlen) _ hopt l hl hhigher
+  intro c hc
+  obtain ⟨z, hz, rfl⟩ := List.mem_map.1 hc
+  exact hd z.2 (List.of_mem_zip hz).2
+
 end configurator
 
 /-- non-vacuity: user priority (level 3) over the non-default branch (level 2) over plain
@@ -262,6 +401,25 @@ end configurator
 example :
     let cs : List Col := [⟨3, 6, 1⟩, ⟨2, 3, -1⟩, ⟨1, 1, -1⟩, ⟨1, 1, -1⟩]
     dominates cs = true ∧ totAbove 3 cs = 0 ∧ dAt 3 cs = 1 ∧ tot cs = 1 := by decide
+
+/-- non-vacuity of the level-sum form: the two configurations tie at the user level 3 (one prioritised item each way is
+    not the case here: nobody differs there), differ at the helper level 2 — `y` needs the non-default branch, `x` does
+    not — and `x` pays two more plain selections for it: `x` still wins, and no optimal configuration does worse than `y` at
+    level 2 -/
+example :
+    let cs : List Col := [⟨3, 6, 0⟩, ⟨2, 3, 1⟩, ⟨1, 1, -1⟩, ⟨1, 1, -1⟩]
+    dominates cs = true ∧ (∀ l', 2 < l' → dAt l' cs = 0) ∧ dAt 2 cs = 1 ∧ 0 < tot cs := by
+  intro cs
+  refine ⟨by decide, ?_, by decide, by decide⟩
+  intro l' h
+  by_cases h3 : l' = 3
+  · subst h3; decide
+  · have : cs.filter (fun c => c.lev = l') = [] := by
+      apply List.filter_eq_nil_iff.2
+      intro c hc
+      simp only [cs, List.mem_cons, List.not_mem_nil, or_false] at hc
+      rcases hc with rfl | rfl | rfl | rfl <;> simp <;> omega
+    simp [dAt, this]
 
 /-! ## The default restructuring does not change what a rule means
 
